@@ -14,7 +14,7 @@ RULE = ("executable programs: (a) random nestings of loops (counts 0,1,2,3, let-
         "unrolled program. non-trivial = at least one subcircuit inside a loop; distinct = S-expression + overrides")
 ASSUMPTIONS = ["termination restated as bounded progress: budget = 20000 + 400 * (unrolled size + subcircuits * nodes) * (loop depth + 1) line events",
                "visit sequence judged only when no subcircuit straddles a loop boundary (others: termination and bookkeeping only)"]
-TIERS = {"quick": {"shards": 8, "budget_s": 100}, "thorough": {"shards": 16, "budget_s": 420}}
+TIERS = {"quick": {"shards": 8, "budget_s": 200}, "thorough": {"shards": 16, "budget_s": 420}}
 REQUIRE = {"bracket-programs-built-from-S-expressions": 1000, "overrides-to-a-negative-count": 100, "overrides-applied-by-the-parser": 200, "macros-expanded-before-overrides": 500, "job-executions-observed": 300, "zero-loop-around-subcircuit": 30, "visit-sequences-compared": 300, "output-lists-compared": 300,
            "let-count": 30, "override-count": 10, "readouts-observed": 1000}
 
